@@ -1,0 +1,75 @@
+//! Verification hooks, compiled only with `--cfg arroy_verif` (see /verif/DESIGN.md, section 8.1).
+//!
+//! Shims of the atomic types used by `ConcurrentNodeIds`: same API, but every operation first
+//! calls a yield point so that an external scheduler can decide which thread performs the next
+//! atomic step. Without an installed scheduler the yield point does nothing.
+
+use std::cell::RefCell;
+use std::sync::atomic::Ordering;
+
+thread_local! {
+    static YIELD: RefCell<Option<Box<dyn Fn(&'static str, &'static str)>>> = const { RefCell::new(None) };
+}
+
+/// Installs (or removes) the closure called before every atomic operation of the current thread.
+/// It receives the type of the atomic and the name of the operation.
+pub fn set_yield_point(f: Option<Box<dyn Fn(&'static str, &'static str)>>) {
+    YIELD.with(|y| *y.borrow_mut() = f);
+}
+
+fn yield_point(ty: &'static str, op: &'static str) {
+    YIELD.with(|y| {
+        if let Some(f) = y.borrow().as_ref() {
+            f(ty, op)
+        }
+    });
+}
+
+macro_rules! shim {
+    ($name:ident, $inner:ty, $prim:ty, $label:expr) => {
+        /// Shim of the std atomic of the same name.
+        #[derive(Debug)]
+        pub struct $name($inner);
+
+        impl $name {
+            #[allow(missing_docs)]
+            pub fn new(v: $prim) -> Self {
+                Self(<$inner>::new(v))
+            }
+            #[allow(missing_docs)]
+            pub fn load(&self, o: Ordering) -> $prim {
+                yield_point($label, "load");
+                self.0.load(o)
+            }
+            #[allow(missing_docs)]
+            pub fn store(&self, v: $prim, o: Ordering) {
+                yield_point($label, "store");
+                self.0.store(v, o)
+            }
+            /// Reads the value without going through the scheduler (observation only).
+            pub fn peek(&self) -> $prim {
+                self.0.load(Ordering::SeqCst)
+            }
+        }
+    };
+}
+
+shim!(AtomicU32, std::sync::atomic::AtomicU32, u32, "u32");
+shim!(AtomicU64, std::sync::atomic::AtomicU64, u64, "u64");
+shim!(AtomicBool, std::sync::atomic::AtomicBool, bool, "bool");
+
+impl AtomicU32 {
+    #[allow(missing_docs)]
+    pub fn fetch_add(&self, v: u32, o: Ordering) -> u32 {
+        yield_point("u32", "fetch_add");
+        self.0.fetch_add(v, o)
+    }
+}
+
+impl AtomicU64 {
+    #[allow(missing_docs)]
+    pub fn fetch_add(&self, v: u64, o: Ordering) -> u64 {
+        yield_point("u64", "fetch_add");
+        self.0.fetch_add(v, o)
+    }
+}
